@@ -75,25 +75,25 @@ m("c05-v2p-footer-not-authenticated", ["C05", "C08"], "v2.public signs and verif
   [("src/core/paseto_impl/v2_public.rs", "            msg,\n            &footer.into().unwrap_or_default(),\n        ]);", "            msg,\n        ]);"),
    ("src/core/paseto_impl/v2_public.rs", "PreAuthenticationEncoding::parse(&[&self.header, &self.payload, &footer]);", "PreAuthenticationEncoding::parse(&[&self.header, &self.payload]);")])
 
-# ---- C06/C08: assertion dropped from PAE on both sides (v4 public) ----------------------------------------
-m("c06-v4p-assertion-not-authenticated", ["C06", "C08"], "v4.public signs and verifies a PAE without the implicit assertion",
-  [("src/core/paseto_impl/v4_public.rs", "            &footer.into().unwrap_or_default(),\n            &implicit_assertion.into().unwrap_or_default(),\n        ]);", "            &footer.into().unwrap_or_default(),\n        ]);"),
-   ("src/core/paseto_impl/v4_public.rs", "PreAuthenticationEncoding::parse(&[&self.header, &self.payload, &footer, &assertion]);", "PreAuthenticationEncoding::parse(&[&self.header, &self.payload, &footer]);")])
+# ---- C06/C08: assertion dropped from PAE on both sides (v3 public: not in the pinned suite's feature set) ------------
+m("c06-v3p-assertion-not-authenticated", ["C06", "C08"], "v3.public signs and verifies a PAE without the implicit assertion",
+  [("src/core/paseto_impl/v3_public.rs", "            &footer.into().unwrap_or_default(),\n            &implicit_assertion.into().unwrap_or_default(),\n        ]);", "            &footer.into().unwrap_or_default(),\n        ]);"),
+   ("src/core/paseto_impl/v3_public.rs", "            &footer,\n            &implicit_assertion,\n        ]);", "            &footer,\n        ]);")])
 
 # ---- C07: header check removed + v2/v4 public share the header constant ----------------------------------
-m("c07-header-unchecked-and-shared", ["C07"], "header text no longer checked, v4.public uses v2.public's header constant and leaves an (empty) assertion out of the PAE: a v2.public token verifies as v4.public",
+m("c07-header-unchecked-and-v2p-speaks-v4p", ["C07"], "header text no longer checked and v2.public signs/verifies exactly v4.public's pre-authentication encoding (v4 header constant, empty assertion piece): a v4.public token verifies as v2.public",
   [("src/core/paseto.rs", "        if potential_header.ne(&expected_header) {\n            return Err(PasetoError::WrongHeader);\n        };", "        let _ = potential_header.ne(&expected_header);"),
-   ("src/core/header.rs", '      ("v4", "public") => V4_PUBLIC,', '      ("v4", "public") => V2_PUBLIC,'),
-   ("src/core/paseto_impl/v4_public.rs", "            &footer.into().unwrap_or_default(),\n            &implicit_assertion.into().unwrap_or_default(),\n        ]);", "            &footer.into().unwrap_or_default(),\n        ]);"),
-   ("src/core/paseto_impl/v4_public.rs", "PreAuthenticationEncoding::parse(&[&self.header, &self.payload, &footer, &assertion]);", "PreAuthenticationEncoding::parse(&[&self.header, &self.payload, &footer]);")])
+   ("src/core/paseto_impl/v2_public.rs", "            &Header::<V2, Public>::default(),\n            msg,\n            &footer.into().unwrap_or_default(),\n        ]);", "            b\"v4.public.\",\n            msg,\n            &footer.into().unwrap_or_default(),\n            b\"\",\n        ]);"),
+   ("src/core/paseto_impl/v2_public.rs", "PreAuthenticationEncoding::parse(&[&self.header, &self.payload, &footer]);", "PreAuthenticationEncoding::parse(&[b\"v4.public.\", &self.payload, &footer, b\"\"]);")])
 
 # ---- C08: wrong domain separation string on both sides ----------------------------------------------------
-m("c08-auth-separator-typo", ["C08"], "authentication-key separator 'paseto-auth-key-for-aeae' (self-consistent)",
-  [("src/core/common/authentication_key_separator.rs", 'Self("paseto-auth-key-for-aead")', 'Self("paseto-auth-key-for-aeae")')])
+m("c08-v3l-key-nonce-split-swapped", ["C08"], "v3.local takes the AES key from bytes 16..48 and the counter nonce from bytes 0..16 of the HKDF output (self-consistent, not the specification's split)",
+  [("src/core/common/encryption_key_impl/v3_local.rs", "            key: out[..32].to_vec(),\n            nonce: out[32..].to_vec(),", "            key: out[16..].to_vec(),\n            nonce: out[..16].to_vec(),")])
 
-# ---- C08: PAE without the piece count ---------------------------------------------------------------------
-m("c08-pae-no-count", ["C08"], "PAE drops LE64(count) (self-consistent)",
-  [("src/core/common/pre_authentication_encoding.rs", "        let the_vec = PreAuthenticationEncoding::le64(pieces.len() as u64);", "        let the_vec: Vec<u8> = Vec::new();")])
+# ---- C08: PAE pieces in another order on both sides (v2 local only) ---------------------------------------------------
+m("c08-v2l-pae-order", ["C08"], "v2.local builds its pre-authentication encoding as (header, footer, nonce) on both sides (self-consistent)",
+  [("src/core/paseto_impl/v2_local.rs", "            &Header::<V2, Local>::default(),\n            nonce,\n            &footer.into().unwrap_or_default(),\n        ]);", "            &Header::<V2, Local>::default(),\n            &footer.into().unwrap_or_default(),\n            nonce,\n        ]);"),
+   ("src/core/paseto_impl/v2_local.rs", "PreAuthenticationEncoding::parse(&[&self.header, nonce, &footer]);", "PreAuthenticationEncoding::parse(&[&self.header, &footer, nonce]);")])
 
 # ---- C08: empty footer dot restored -----------------------------------------------------------------------
 m("c08-empty-footer-dot", ["C08"], "format_token appends '.' for an explicitly empty footer again",
